@@ -3,12 +3,12 @@
 Bounded-exhaustive enumeration (E3): every condition of the alphabet x every hit history of
 length <= N over a 2-valued local x fire_count, and every expression of the scope alphabet x
 every expression source (watch, log field, metric value, metric label) + all ordered watch
-pairs. Reference = eval(expr, frame.f_globals, frame.f_locals) performed by the recorder on the
+pairs. Reference = eval(expr, <the names visible at the line>) performed by the recorder on the
 very frame, before the agent sees the event.
 """
 import itertools
 
-from .. import rig
+from .. import rig, snapref
 from ..drive import Forwarder
 
 ID = 'C10'
@@ -26,6 +26,7 @@ G = 41
 x = 999
 acc = -5
 lst = 'module-level lst'
+late = 'module-level late'
 uuid = 'host-uuid'
 Dict = 'host-Dict'
 class Boom(Exception):
@@ -110,6 +111,8 @@ CONDITIONS = [
     ('', 'blank'), ('   ', 'blank'),
     ('TriggerContext is not None', 'agent-name'), ('uuid == "host-uuid"', 'shadowed'),
     ('late > 0', 'late-bound'), ('late == x', 'late-bound'), ('late < 0 or x > 0', 'late-bound'),
+    # (the module has a global of that name: it is not what `late` means in the function, bound yet or not)
+    ("late == 'module-level late'", 'late-bound'), ("late != 'module-level late'", 'late-bound'),
     ('any(i == x for i in lst)', 'nested-scope'), ('(lambda: x > 0)()', 'nested-scope'), ('all(i != x for i in lst)', 'nested-scope'),
 ]
 
@@ -183,8 +186,7 @@ def ref_eval(expr, frame):
     """What the expression is worth written at that line of the program: every name visible there - the frame's locals over its
     module's globals - is visible to the whole expression, nested scopes (generator expressions, lambdas) included, and nothing the
     expression binds (walrus) reaches the frame. (eval(expr, globals, locals) is not that: nested scopes would see the globals only.)"""
-    names = dict(frame.f_globals)
-    names.update(frame.f_locals)
+    names = snapref.names_at(frame)      # (a function's own names hide the module's, also while they are not bound - yet, or any more)
     try:
         return ('ok', eval(expr, names))
     except BaseException as e:
